@@ -40,6 +40,9 @@ def run_circuit_table(repo) -> Dict[str, Tuple[Optional[str], Optional[str]]]:
         cs = [c for st in body for c in calls_in(st)]
         return call_attr(cs[0]) if len(cs) == 1 else (None if not cs else "?")
 
+    dd = _dict_dispatch(repo, m, fn, rev)
+    if dd:
+        return dd
     for ch in extract_chains(repo, m, fn):
         for b in ch:
             if b.parsed and b.subject and b.subject.endswith("[0]") and len(b.literals) == 1:
@@ -53,6 +56,80 @@ def run_circuit_table(repo) -> Dict[str, Tuple[Optional[str], Optional[str]]]:
                 else:
                     f = fn_of(b.body)
                     out[tag] = (f, f)
+    return out
+
+
+def _dict_dispatch(repo, m, fn, rev) -> Dict[str, Tuple[Optional[str], Optional[str]]]:
+    """The same table when run_circuit dispatches through module-level dictionaries: `TABLE[name](tableau, ops[1], ..)` with
+    `name = ops[0]`, optionally remapped under `if reverse:` through a name -> name dictionary (`INV.get(name, name)`)."""
+    fdicts: Dict[str, Dict[str, str]] = {}
+    ndicts: Dict[str, Dict[str, str]] = {}
+    for st in m.tree.body:
+        if isinstance(st, ast.Assign) and len(st.targets) == 1 and isinstance(st.targets[0], ast.Name) and isinstance(st.value, ast.Dict) \
+                and st.value.keys and all(isinstance(k, ast.Constant) and isinstance(k.value, str) for k in st.value.keys):
+            if all(isinstance(v, ast.Name) for v in st.value.values):
+                fdicts[st.targets[0].id] = {k.value: v.id for k, v in zip(st.value.keys, st.value.values)}
+            elif all(isinstance(v, ast.Constant) and isinstance(v.value, str) for v in st.value.values):
+                ndicts[st.targets[0].id] = {k.value: v.value for k, v in zip(st.value.keys, st.value.values)}
+    loops = [l for l in fn.body if isinstance(l, ast.For)]
+    if not fdicts or len(loops) != 1:
+        return {}
+    lp = loops[0]
+    calls = [c for c in ast.walk(lp) if isinstance(c, ast.Call) and isinstance(c.func, ast.Subscript) and isinstance(c.func.value, ast.Name)
+             and c.func.value.id in fdicts and isinstance(c.func.slice, ast.Name)]
+    if not calls:
+        return {}
+    nv = calls[0].func.slice.id
+    if any(c.func.slice.id != nv for c in calls):
+        raise AnalysisError("run_circuit: dictionary dispatch on more than one name variable")
+    opv = norm(lp.target)
+    # definitions of the name variable inside the loop body, in order
+    remap: Optional[Dict[str, str]] = None
+    base_ok = False
+    for st in lp.body:
+        if isinstance(st, ast.Assign) and norm(st.targets[0]) == nv:
+            if norm(st.value) == f"{opv}[0]":
+                base_ok = True
+            else:
+                raise AnalysisError(f"run_circuit: `{short(st)}` is not the gate tag of the list entry")
+        elif isinstance(st, ast.If) and any(isinstance(x, ast.Assign) and norm(x.targets[0]) == nv for x in ast.walk(st)):
+            t, neg = positive(st.test)
+            asg = [x for x in st.body if isinstance(x, ast.Assign) and norm(x.targets[0]) == nv]
+            if norm(t) != rev or neg or st.orelse or len(asg) != 1 or len(st.body) != 1:
+                raise AnalysisError(f"run_circuit: the tag is re-bound under `{short(st.test)}`, not simply under `{rev}`")
+            v = asg[0].value
+            if isinstance(v, ast.Call) and call_attr(v) == "get" and isinstance(v.func.value, ast.Name) and v.func.value.id in ndicts \
+                    and [norm(a) for a in v.args] == [nv, nv]:
+                remap = ndicts[v.func.value.id]
+            else:
+                raise AnalysisError(f"run_circuit: unrecognised reverse re-mapping `{short(v)}`")
+    if not base_ok:
+        raise AnalysisError("run_circuit: the dispatched name is not taken from the list entry's first element")
+    out: Dict[str, Tuple[Optional[str], Optional[str]]] = {}
+    # arity: a table called with (tableau, ops[1]) holds one-qubit gates, with (tableau, ops[1], ops[2]) two-qubit gates
+    by_table: Dict[str, str] = {}
+    for c in calls:
+        for tag, f in fdicts[c.func.value.id].items():
+            if tag in by_table:
+                raise AnalysisError(f"run_circuit: tag '{tag}' appears in two dispatch tables")
+            by_table[tag] = f
+    for tag, f in by_table.items():
+        rt = remap.get(tag, tag) if remap is not None else tag
+        out[tag] = (f, by_table.get(rt))
+    # an explicit no-op tag: `if name == "I": continue / pass`
+    for st in lp.body:
+        if isinstance(st, ast.If) and isinstance(st.test, ast.Compare) and norm(st.test.left) == nv and len(st.test.ops) == 1 \
+                and isinstance(st.test.ops[0], ast.Eq) and isinstance(st.test.comparators[0], ast.Constant) \
+                and all(isinstance(x, (ast.Continue, ast.Pass)) for x in st.body):
+            tag = st.test.comparators[0].value
+            rt = tag
+            out[tag] = ("identity", "identity")
+            if remap is not None and tag in remap:
+                out[tag] = ("identity", by_table.get(remap[tag]))
+    if remap is not None:
+        for tag in remap:
+            if tag not in out:
+                out[tag] = (None, by_table.get(remap[tag]))
     return out
 
 
@@ -117,6 +194,8 @@ def rule_emit_mirror(ctx: Ctx) -> None:
     fn = repo.anchor(STABF, "inverse_circuit")
     ctx.touch(m, fn)
     table = run_circuit_table(repo)
+    if len(table) < 8 or any(f is None for f, _ in table.values()):
+        raise AnalysisError("run_circuit: dispatch table not recognised (emit.mirror needs tag -> function)")
     tab = func_params(fn)[0]
     n = 0
     for blk in [x for x in ast.walk(fn) if hasattr(x, "body") and isinstance(getattr(x, "body"), list)]:
@@ -256,6 +335,10 @@ def run(ctx: Ctx) -> None:
     rule_replay(ctx)
     tm = repo.module(TR)
     handled = tables.handled_tags_chain(repo, tm, repo.anchor(TR, "run_circuit"))
+    try:
+        handled = set(handled) | {t for t, (f, _) in run_circuit_table(repo).items() if f is not None}  # dictionary dispatch
+    except AnalysisError:
+        pass
     tables.rule_vocab(ctx, "vocab.gates", [(STABF, "inverse_circuit")], "run_circuit", handled)
     tableau.rule_rowops(ctx)
     from ..rules import effects, loops
@@ -264,6 +347,8 @@ def run(ctx: Ctx) -> None:
     memo.rule_memo_sound(ctx, [RC, STABF, TR])
     memo.rule_falsy_zero(ctx, [RC, STABF, TR])
     memo.rule_arg_names(ctx, [RC, STABF, TR])
+    memo.rule_fixed_width(ctx, [RC, STABF, TR])
+    memo.rule_paste_incomplete(ctx, [RC, STABF, TR])
     effects.rule_consumed_tableau(ctx, [RC, STABF, "graphiq/backends/stabilizer/functions/metric.py"])
     ctx.floor("reverse.table", 18)
     ctx.floor("emit.mirror", 6)
